@@ -9,6 +9,9 @@ CHECKS = {
     "C17": ("H histcheck", "exhaustive enumeration of all input sequences up to length 6 (7 thorough) on the real aggregators",
             "Every sequence over {-1,0,1,2} up to the length bound, four size_hint shapes, percentile over a p grid + all rank boundaries, compared with the mathematical definition; panics are violations.",
             "values from a 4-element alphabet; f64 mean compared exactly (exact for these inputs)", "6 C17"),
+    "C18": ("H histcheck", "exhaustive DFS over all operation histories up to a depth bound on the real structures (state = history), reference closure compared after every operation",
+            "Every add-sequence over 4 elements to depth 6 (7 thorough) and over 5 elements to depth 4 (5) on the real TrRelUnionFind; every add/find/union sequence to depth 5 (6) on the real UnionFind incl. the unsafe id-based API; after each operation all public queries and the structures' own invariant checks are compared with a Warshall closure / partition.",
+            "element domain 4-5, depth bound; hash iteration order is whatever FxHasher gives for u8 keys", "6 C18"),
 }
 NOT_APPLICABLE = []
 
